@@ -155,6 +155,9 @@ def run_frontend(fe, tab, config_dict):
     n = tab["n"]
     times = dt64n(tab["time"])
     cols = {k: np.array(tab[k], dtype="float64") for k in ("v", "w", "z", "lat", "lon") if k in tab}
+    extra = {k: np.array(a, dtype="float64") for k, a in (tab.get("extra") or {}).items()}   # further measured columns (wide tables)
+    cols.update(extra)
+    measured = ("v", "w", *extra)
     kind, _, variant = fe.partition(":")
     cfg = Config(config_dict)
     if variant == "names":
@@ -180,14 +183,14 @@ def run_frontend(fe, tab, config_dict):
     if kind == "numpy":
         axes = {k2: cols[k] for k, k2 in (("z", "z"), ("lat", "lat"), ("lon", "lon")) if k in cols}
         if variant == "dictnotime":
-            return list(NumpyStream(inp={k: cols[k] for k in ("v", "w")}, **axes).run(cfg))
+            return list(NumpyStream(inp={k: cols[k] for k in measured}, **axes).run(cfg))
         if variant == "nd":
             return list(NumpyStream(inp=cols["v"], time=times, **axes).run(cfg))
-        return list(NumpyStream(inp={k: cols[k] for k in ("v", "w")}, time=times, **axes).run(cfg))
+        return list(NumpyStream(inp={k: cols[k] for k in measured}, time=times, **axes).run(cfg))
     if kind in ("xarray", "netcdf"):
         if variant == "twodims":
             # v, w on the time dimension with z/lat/lon as coordinates; u on another, longer dimension without any axis
-            data = {k: ("time", cols[k]) for k in ("v", "w")}
+            data = {k: ("time", cols[k]) for k in measured}
             data["u"] = ("obs", np.arange(n + 2, dtype="float64"))
             coords = {"time": times}
             for k in ("z", "lat", "lon"):
